@@ -76,14 +76,24 @@ def new_arr(i, shape, elem, name="arr", dtype=None):
     return a
 
 
-def define1(i, n, elem, f, name="arr", dtype=None):
-    """fresh 1-D array r of length n with  forall k in [0,n). r[k] == f(k)"""
+def define1(i, n, elem, f, name="arr", dtype=None, alts=None):
+    """fresh 1-D array r of length n with  forall k in [0,n). r[k] == f(k).
+    alts: functions k -> source term; each becomes an alternative trigger so that the axiom also fires from the
+    operands' side (E-matching chains must connect in both directions)."""
     r = new_arr(i, (n,), elem, name, dtype)
     k = z3.Int("k!" + name)
     body = f(k)
     body = to_z3(body, elem) if not is_z3(body) or body.sort() != elem else body
+    pats = [z3.Select(r.data, k)]
+    for alt in alts or []:
+        try:
+            t = alt(k)
+            if is_z3(t) and not z3.is_const(t) and z3.is_app(t) and t.decl().kind() in (z3.Z3_OP_SELECT, z3.Z3_OP_UNINTERPRETED):
+                pats.append(t)
+        except Exception:
+            pass
     i.ctx.assume(z3.ForAll([k], z3.Implies(z3.And(k >= 0, k < to_z3(n, Int)), z3.Select(r.data, k) == body),
-                           patterns=[z3.Select(r.data, k)]))
+                           patterns=pats))
     return r
 
 
@@ -222,7 +232,12 @@ def select_mask(i, a, m, node):
     rank_axioms(i, m.data, n)
     cnt = rank(m.data, to_z3(n, Int))
     if a.ndim == 1:
-        return define1(i, cnt, a.elem_sort, lambda k: z3.Select(a.data, idx(m.data, to_z3(n, Int), k)), "sel", a.dtype)
+        r = define1(i, cnt, a.elem_sort, lambda k: z3.Select(a.data, idx(m.data, to_z3(n, Int), k)), "sel", a.dtype)
+        p = z3.Int("p!selb")
+        i.ctx.assume(z3.ForAll([p], z3.Implies(z3.And(p >= 0, p < to_z3(n, Int), z3.Select(m.data, p)),
+                                               z3.Select(r.data, rank(m.data, p)) == z3.Select(a.data, p)),
+                               patterns=[z3.MultiPattern(z3.Select(m.data, p), z3.Select(a.data, p))]))
+        return r
     r = new_arr(i, (cnt, a.shape[1]), a.elem_sort, "sel", a.dtype)
     k = z3.Int("k!sel2")
     i.ctx.assume(z3.ForAll([k], z3.Implies(z3.And(k >= 0, k < cnt),
@@ -337,7 +352,8 @@ def _getitem(i, a, ix, node):
             return z3.Select(z3.Select(a.data, rk), ck)
         if isinstance(r, SliceV) and r.lo is None and r.hi is None and r.step is None and not isinstance(c, (SliceV, Arr)):
             ck = norm_index(i, c, a.shape[1], node)
-            out = define1(i, a.shape[0], a.elem_sort, lambda k: z3.Select(z3.Select(a.data, k), ck), "col", a.dtype)
+            out = define1(i, a.shape[0], a.elem_sort, lambda k: z3.Select(z3.Select(a.data, k), ck), "col", a.dtype,
+                          alts=[lambda k: z3.Select(z3.Select(a.data, k), ck)])
             out.is_view = True
             a.views.append(out)
             return out
